@@ -575,8 +575,15 @@ static ares_status_t ares_sysconfig_apply(ares_channel_t         *channel,
     channel->rotate = sysconfig->rotate;
   }
 
-  if (sysconfig->usevc) {
-    channel->flags |= ARES_FLAG_USEVC;
+  /* Flags supplied by the application are never touched.  Otherwise follow the
+   * system configuration, including dropping the flag on a reinit once it is
+   * no longer configured. */
+  if (!(channel->optmask & ARES_OPT_FLAGS)) {
+    if (sysconfig->usevc) {
+      channel->flags |= ARES_FLAG_USEVC;
+    } else {
+      channel->flags &= ~((unsigned int)ARES_FLAG_USEVC);
+    }
   }
 
   return ARES_SUCCESS;
